@@ -152,6 +152,8 @@ def opHist : OpFn := fun view inp out => do
           | some (c, ft0) =>
             let ft := if c.startsWith "C12: a certificate gopki produced keeps an outdated notAfter" then Json.mkObj [("validityNotStatic", true)] else ft0
             fails := fails ++ [(c, ft, Json.null)]
+            if c.startsWith "C12: a certificate gopki produced does not reflect its current configuration" then
+              fails := fails ++ [("C13: after a default run (generate-changed) the stored hash of an entity is not the hash of its current effective configuration: an edit of its configuration or profile was not detected", ft, Json.null)]
           | none => pure ()
     else prevRun := none
     prePems := postPems
@@ -160,7 +162,7 @@ def opHist : OpFn := fun view inp out => do
   let seen := fails.find? fun (c, _, _) => viewAccepts view c
   pure { corr := corr, spec := seen.isNone,
          clause := match seen with | some (c, _, _) => c | none => (if corrClause != "" then corrClause else (fails.head?.map (·.1)).getD ""),
-         nontrivial := if view == "C09" then constrained > 0 else runs ≥ 3,
+         nontrivial := if view == "C09" then constrained > 0 else if view == "C08" then files.any (·.kind == "profile") else runs ≥ 3,
          branch := s!"runs{runs}" ++ (if faulted > 0 then "+fault" else "") ++ (if rejected > 0 then "+rejected" else if constrained > 0 then "+constrained" else ""),
          model := match seen with | some (_, _, d) => d | none => corrDetail,
          feat := match seen with | some (_, f, _) => f | none => Json.mkObj [] }
